@@ -2,7 +2,7 @@
 import os
 import vf
 
-MODEL_VOS = ["Base/Conv.vo", "DD/Table.vo", "DD/TableExtra.vo", "DD/Sem.vo"]
+MODEL_VOS = ["Base/Conv.vo", "DD/Table.vo", "DD/TableExtra.vo", "DD/Sem.vo", "Num/I64.vo"]
 DRIVER_EXTRA = ["dd_types.ml", "order.ml", "zchain.ml", "pick.ml"]
 
 
@@ -32,7 +32,7 @@ def msg_class(msg):
 
 
 def run_dd(ctx, props, cases, rule, allowed_axioms=(), drv_args=(), env=None, assumptions=(), extra_cov=None,
-           nshards=16, proofs=True, max_reports=2, sig_extra=""):
+           nshards=16, proofs=True, max_reports=2, sig_extra="", write_ev=True):
     """Common body of the DD checks: proof gate, build, sharded lock-step run, shrink + report,
     evidence."""
     if proofs:
@@ -77,6 +77,8 @@ def run_dd(ctx, props, cases, rule, allowed_axioms=(), drv_args=(), env=None, as
     cov = {"cases_ok": ok, "cases_bad": len(bad), "tier": ctx.tier, "props_reported": props}
     if extra_cov:
         cov.update(extra_cov)
+    if not write_ev:
+        return ok, bad
     vf.write_evidence(
         ctx, "proof", rule=rule,
         checker_cmd=f"make -C coq Props/{ctx.pid}.vo (coqc 8.16.1) + Print Assumptions audit; ./check {ctx.pid}",
